@@ -37,4 +37,32 @@ structure Sig where
   kwOnly : Dict
   deriving Repr, DecidableEq, Inhabited
 
+/-! ## vocabulary of the per-method wire rules
+
+Shared by the hand-written transcription (`bodyOf`, Model/C18.lean) and the table the translator
+extracts from the source on every run (`Gen/C18Bodies.lean`, harness/gen/c18.py). -/
+
+inductive Ex where
+  | ref (n : String)     -- parameter of the method
+  | lit (v : Val)
+  | dyn                  -- computed from data (addresses, table keys, discovered chips)
+  | mask (n : String)    -- `1 << parameter`, or `sum(1 << b for b in parameter)` when it is an iterable
+  | first (n : String)   -- the parameter, or its first element when it is an iterable (`boards[0]`)
+  deriving Repr, DecidableEq
+
+inductive Op where
+  /-- `self._send_scp(x, y, p, cmd, ...)`; `app`: the application id the command carries, if the command carries one -/
+  | scp (x y p : Ex) (app : Option Ex)
+  /-- `self._get_connection(x, y).read/write(.., x, y, p, ..)` -/
+  | mem (x y p : Ex)
+  /-- `self.m(*pos, **kw)` - a decorated method, resolved again against the same stack -/
+  | call (m : String) (pos : List Ex) (kw : List (String × Ex))
+  /-- BMP: `self._send_scp(cabinet, frame, board, cmd, ...)`; `mask`: the board bit mask carried in arg2 -/
+  | bmp (c f b : Ex) (mask : Option Ex)
+  /-- a send / inner call the translator found in the source but could not classify (never used by the
+  hand-written rules): it yields a request about which nothing is known, so every obligation over the
+  generated table fails -/
+  | unknown (what : String)
+  deriving Repr, DecidableEq
+
 end Rig.C18
